@@ -235,6 +235,12 @@ for _member in ["cmem", "vmem", "lmem"]:
         for _ctx in ["same", "block", "fn", "method"]:
             SPECIAL.append(("aliasmember-" + _member, _w, _ctx, _stmt % _member))
 
+# a constant bound TWICE by the unpacking declaration that introduces it: which initializer would it hold?
+for _w, _stmt in [("const-unpack-twice", "const [dd, dd] = [5, 7]\nprint dd"), ("const-unpack-twice-of-three", "const [dd, ee, dd] = [5, 6, 7]\nprint dd"),
+                  ("unpack-twice", "[dd, dd] = [5, 7]\nprint dd")]:
+    for _ctx in ["same", "block", "fn"]:
+        SPECIAL.append(("dupunpack", _w, _ctx, _stmt))
+
 # members brought in by name (`import cmem, vmem, lmem, fmem from mod`) and written through the bare name
 for _member in ["cmem", "vmem", "lmem", "fmem"]:
     for _w, _stmt in [("assign", "%s = 7"), ("typed", "%s: int = 7"), ("+=", "%s += 1"), ("index", "%s[0] = 9"), ("index+=", "%s[0] += 9"),
@@ -270,6 +276,13 @@ def special_program(kind, stmt, ctx):
         val = stmt.replace("fmem = 7", "fmem = fn() -> int {\n return 7\n}")
         return {"x.ms": "\n".join(["import mod", give, wrap(ctx, val), "print mod.peek()", "print mod.fmem()"]) + "\n",
                 "mod.ms": MOD_SRC}, ["11", "5"]
+    if kind == "dupunpack":
+        # (an unpacking statement must not follow a line it could be read as an index of: it is the first statement of its block)
+        if stmt == "ctl9 = 1":
+            body = "const [dd, ee] = [5, 7]\nprint dd"
+        else:
+            body = stmt
+        return {"x.ms": wrap("block" if ctx == "same" else ctx, "if true {\n" + "\n".join(" " + l for l in body.split("\n")) + "\n}") .replace("if true {\n if true {", "if true {\n if true {") + "\nprint 5\n"}, ["5"]
     if kind.startswith("aliasmember-"):
         return {"x.ms": "\n".join(["import mod", "ma = mod", give, wrap(ctx, stmt), "print mod.peek()"]) + "\n", "mod.ms": MOD_SRC}, ["11"]
     if kind.startswith("named-"):
@@ -332,7 +345,7 @@ class C10(Check):
             detail = {"files": files, "res": res.brief()}
             rejected = driver.compile_rejected(res)
             in_fn = ctx in ("fn", "fn-in-fn", "method", "own-ctor", "own-method", "own-method-closure")
-            plain_local = in_fn and not kind.startswith("member-") and not kind.startswith("aliasmember-") and not w.startswith("modify") and not w.startswith("index")
+            plain_local = in_fn and not kind.startswith("member-") and not kind.startswith("aliasmember-") and kind != "dupunpack" and not w.startswith("modify") and not w.startswith("index")
             if res.cls in ("panic", "abort", "timeout"):
                 if "compiler/src" in res.err:
                     return {"outcome": "compiler-panic", "nontrivial": True, "tags": ["compiler-panic"]}
